@@ -337,14 +337,72 @@ def proof_step(pid, thorough=False):
 
 # ---------------------------------------------------------------------------- runners
 
+STALL_S = int(os.environ.get("VERIF_STALL_S", "45"))      # a child that prints nothing for this long is killed
+CHILD_AS_BYTES = int(os.environ.get("VERIF_CHILD_AS_GB", "6")) << 30
+
+
+def _limit_child():
+    import resource
+    try:
+        resource.setrlimit(resource.RLIMIT_AS, (CHILD_AS_BYTES, CHILD_AS_BYTES))
+    except Exception:
+        pass
+
+
 def _run_shard(cmd, lines, cwd=None, timeout=3000):
-    data = "\n".join(lines) + "\n"
-    p = subprocess.run(cmd, input=data, stdout=subprocess.PIPE, stderr=subprocess.PIPE,
-                       text=True, cwd=cwd, timeout=timeout)
-    out = p.stdout.split("\n")
+    """run one child on its share of the cases.  The child is killed when it produces no output for STALL_S
+    seconds (a hang) or exceeds [timeout]; its address space is capped (a runaway allocation dies instead of
+    taking the machine down).  Returns (rc, output lines so far, stderr tail)."""
+    import selectors
+    import tempfile
+    import threading
+    data = ("\n".join(lines) + "\n").encode()
+    errf = tempfile.TemporaryFile()
+    p = subprocess.Popen(cmd, stdin=subprocess.PIPE, stdout=subprocess.PIPE, stderr=errf, cwd=cwd,
+                         preexec_fn=_limit_child)
+
+    def feed():
+        try:
+            p.stdin.write(data)
+            p.stdin.close()
+        except Exception:
+            pass
+    threading.Thread(target=feed, daemon=True).start()
+    sel = selectors.DefaultSelector()
+    sel.register(p.stdout, selectors.EVENT_READ)
+    chunks, t0, last, why = [], time.time(), time.time(), ""
+    while True:
+        ev = sel.select(timeout=1.0)
+        now = time.time()
+        if ev:
+            b = os.read(p.stdout.fileno(), 1 << 20)
+            if not b:
+                break
+            chunks.append(b)
+            last = now
+        elif now - last > STALL_S:
+            why = "TIMEOUT: no output for %d s" % STALL_S
+            p.kill()
+            break
+        if now - t0 > timeout:
+            why = "TIMEOUT: shard exceeded %d s" % timeout
+            p.kill()
+            break
+    try:
+        p.wait(timeout=10)
+    except Exception:
+        p.kill()
+    out = b"".join(chunks).decode("utf-8", "replace").split("\n")
     if out and out[-1] == "":
         out.pop()
-    return p.returncode, out, p.stderr
+    elif out and why:
+        out.pop()          # a partial last line
+    errf.seek(0)
+    err = errf.read()[-4000:].decode("utf-8", "replace")
+    errf.close()
+    if why:
+        err = (err + "\n" + why).strip()
+    return (p.returncode if p.returncode is not None else -9), out, err
 
 
 def run_sharded(cmd, lines, cwd=None, shards=None, timeout=3000):
